@@ -845,6 +845,7 @@ def run(scn, rng=None):
     finally:
         set_log(None)
     out["sig"] = digest(sig)
+    out["sim_s"] = out["ticks"] / tps
     out["nontrivial"] = any(any(x not in ("",) and x[0] in "SFXE" for x in ts) for ts in sig)
     return out
 
